@@ -283,7 +283,14 @@ def rule_c20_atomic(prog: Program, col: Collector) -> None:
             is_atomic = not is_global(r.ev.func, "shutil.move")
             if not is_atomic:
                 col.assume("shutil.move on a sibling path reduces to os.rename (same file system)")
-    col.rule("A4", "the destination is never removed or written after/before the replace", 0)
+    col.rule("A4", "the destination is never removed, moved away or written after/before the replace", 0)
+    for r in m.replaces:
+        sk = path_kind(r.source, dests) if r.ref.qual == saver.qual else None
+        if sk == "dest":
+            col.check(False, r.ref.where(r.ev.node), r.ref.short, f"the results file itself is never renamed away ({short(r.source, 40)} -> {short(r.target, 40)})",
+                      construct="dest-moved-away",
+                      necessity="between moving data.json aside and installing the new file there is no results file at all: a crash there loses every earlier run for the next save",
+                      rule="A4")
     for ev, ref, path, kind in m.removes:
         if kind == "unknown":
             col.undecidable(ref.where(ev.node), ref.short, f"removal of a path not related to the destination: {short(path, 60)}",
@@ -754,6 +761,15 @@ def rule_c19_commands(prog: Program, col: Collector) -> None:
         left, right = e.value[2][2], e.value[2][3]
         okacc = left == ("index", el, ("const", 0)) and right == ("list", (("index", el, ("const", 1)),))
         col.check(okacc, bref.where(e.node), bref.short, "chosen coalitions are appended in repetition order: x + [y]", construct="best-states-append-order", necessity="")
+
+    fills = [e for e in bft.calls() if is_global(e.func, "incomplete_cooperative.run.best_states.fill_in_coalitions") and any(f[0] == "for" for f in e.ctx)]
+    for e in fills:
+        lp = [f for f in e.ctx if f[0] == "for"][-1]
+        idx_ok = len(e.args) == 2 and e.args[1][0] == "index" and e.args[1][2] == lp[2]
+        src = e.args[1][1] if idx_ok else None
+        rng_ok = idx_ok and is_call_to(lp[3], "range") and lp[3][2] == (("call", ("global", "len"), (src,), ()),)
+        col.check(bool(rng_ok), bref.where(e.node), bref.short, "every row of the chosen-coalition lists is copied into the action tensor (range(len(<that list>)))",
+                  construct="best-states-fill-range", necessity="a shorter range leaves the last row NaN: the file does not hold the action matrix the search produced")
 
     col.rule("W7", "savers treat the output as read-only (what is serialised is what was computed)", 3)
     for e in registry(prog, "run.save.SAVERS"):
